@@ -9,7 +9,7 @@ RULE = ("well-formed images (typed, random, small bundled examples) and mutated/
         "<= 4 over a 3-section image in the thorough tier) of get_data/free_data on sections and segments is applied to both and "
         "every observation compared, followed by a full observation, dump and save of both. Translation: the image is cut at "
         "header/table/section boundaries into 1-6 pieces placed at displaced positions of a container (random order, noise in the "
-        "gaps, empty and unused ranges in the table) and loaded through set_address_translation; observations are compared with "
+        "gaps, empty and unused ranges in the table), or - a third of the containers - only the bytes that are ever read are stored back to back (compact container: pieces move towards the start, the container is shorter than the image), and loaded through set_address_translation; observations are compared with "
         "those of the plain image. Non-trivial = at least one free followed by a later get on the lazy object, or a container with "
         ">= 2 displaced pieces.")
 ASSUMPTIONS = ["the image loads in both modes (a lazy load defers the data checks that can make an eager load fail)", "the stream stays open", "for translation: no single read (header, table entry, section or segment data) straddles two pieces"]
@@ -118,6 +118,27 @@ def container(rng, im, b):
             atoms.append((g["offset"], g["filesz"]))
     def ok(c):
         return all(not (a < c < a + l) for a, l in atoms)
+    if rng.random() < 0.35:
+        # a COMPACT container: only the bytes that are ever read (headers, table entries, section and segment
+        # contents) are stored, back to back - alignment gaps of the image are dropped, so pieces move towards the
+        # start and the container can be shorter than an original offset + size
+        iv = sorted((a, a + l) for a, l in atoms if l > 0)
+        merged = []
+        for a, e in iv:
+            if merged and a <= merged[-1][1]:
+                merged[-1][1] = max(merged[-1][1], e)
+            else:
+                merged.append([a, e])
+        cont = bytearray(rbytes(rng, rng.choice([0, 0, 5])))
+        table = []
+        for a, e in merged:
+            e = min(e, n)
+            if e <= a:
+                continue
+            table.append((a, e - a, len(cont)))
+            cont += b[a:e]
+        rng.shuffle(table)
+        return bytes(cont), table, len(table)
     good = sorted(c for c in cuts if 0 < c < n and ok(c))
     k = rng.randint(0, min(5, len(good)))
     chosen = sorted(rng.sample(good, k))
@@ -154,6 +175,7 @@ def xlat_case(cid, rng, im, b):
         lines += both(op)
     c = Case(cid, lines, meta_from_lines(lines))
     c.meta["pieces"] = npieces
+    c.meta["short_container"] = len(cont) < len(b)
     return c
 
 
@@ -270,4 +292,5 @@ def distribution(cases):
     for c in cases:
         d["lazy_cases"] += c.id.startswith("l"); d["mutated_cases"] += c.id.startswith("m")
         d["translation_cases"] += c.id.startswith("x"); d["frees"] += c.meta.get("frees", 0); d["displaced_pieces"] += c.meta.get("pieces", 0)
+        d["containers_shorter_than_the_image"] = d.get("containers_shorter_than_the_image", 0) + (1 if c.meta.get("short_container") else 0)
     return d
